@@ -354,5 +354,5 @@ def run(ctx):
     ctx.cov['rule'] = ('every content of Detect.tla (7 offset-0 signatures x VDI x MBR x FAT look-alike x ISO x 4 backgrounds x 22 '
                        'lengths around every decision point, plus allowed_formats family) realised as bytes and read through the real '
                        'InspectWrapper with read sizes 1/17/512/4096/64K/1M, decision sampled after every read and after close; '
-                       'detect_file_format on every third content; arbitrary files for totality and no-revision')
+                       'detect_file_format on every third content; arbitrary files for totality and no-revision; reads of 17 and 4096 bytes through a source that offers read() only; a text descriptor with a 70-character createType')
     ctx.cov['exhaustive'] = not quick
